@@ -390,28 +390,58 @@ Proof.
   destruct (is_modified l); simpl; auto.
 Qed.
 
-Lemma save_autofix_fold (content : fname -> str) changed : forall c d w,
-  fold_left (fun '(c, d, w) fn => (evict c (key fn), map_set (key fn) (content fn) d, w ++ [(key fn, content fn)]))
+Definition save_one (content : fname -> str) (fail : list N) (d : list (N * str)) (fn : fname) :=
+  if key_in (key fn) fail then d else map_set (key fn) (content fn) d.
+Definition saved_of (content : fname -> str) (fail : list N) (fn : fname) : list (N * str) :=
+  if key_in (key fn) fail then [] else [(key fn, content fn)].
+
+Lemma save_autofix_fold (content : fname -> str) fail changed : forall c d w,
+  fold_left (fun '(c, d, w) fn =>
+               if key_in (key fn) fail then (evict c (key fn), d, w)
+               else (evict c (key fn), map_set (key fn) (content fn) d, w ++ [(key fn, content fn)]))
             changed (c, d, w) =
   (evicts (map key changed) c,
-   fold_left (fun d fn => map_set (key fn) (content fn) d) changed d,
-   w ++ map (fun fn => (key fn, content fn)) changed).
+   fold_left (save_one content fail) changed d,
+   w ++ flat_map (saved_of content fail) changed).
 Proof.
   unfold evicts. induction changed as [|fn t IH]; intros c d w; simpl.
   - rewrite app_nil_r; auto.
-  - rewrite IH. rewrite <- app_assoc. auto.
+  - replace (save_one content fail d fn) with (if key_in (key fn) fail then d else map_set (key fn) (content fn) d) by reflexivity.
+    replace (saved_of content fail fn) with (if key_in (key fn) fail then [] else [(key fn, content fn)]) by reflexivity.
+    destruct (key_in (key fn) fail); rewrite IH; simpl; [auto|rewrite <- app_assoc; auto].
 Qed.
 
-Lemma fold_map_set_other (content : fname -> str) changed k : forall d,
+Lemma fold_map_set_other (content : fname -> str) fail changed k : forall d,
   ~ In k (map key changed) ->
-  map_get k (fold_left (fun d fn => map_set (key fn) (content fn) d) changed d) = map_get k d.
+  map_get k (fold_left (save_one content fail) changed d) = map_get k d.
 Proof.
   induction changed as [|fn t IH]; intros d H; simpl; auto.
   rewrite IH by (intros H'; apply H; right; auto).
+  unfold save_one. destruct (key_in (key fn) fail); auto.
   apply map_get_set_other. intros ->. apply H; left; auto.
 Qed.
 
-Lemma save_lines_spec md c disk ls c' d' w : save_lines md c disk ls = (c', d', w) ->
+(* a file whose rewrite fails keeps its content *)
+Lemma fold_save_one_failed (content : fname -> str) fail changed k : forall d,
+  key_in k fail = true ->
+  map_get k (fold_left (save_one content fail) changed d) = map_get k d.
+Proof.
+  induction changed as [|fn t IH]; intros d H; simpl; auto.
+  rewrite IH by auto. unfold save_one.
+  destruct (key_in (key fn) fail) eqn:E; auto.
+  apply map_get_set_other. intros ->. congruence.
+Qed.
+
+Lemma saved_of_in (content : fname -> str) fail changed k x :
+  In (k, x) (flat_map (saved_of content fail) changed) ->
+  In k (map key changed) /\ key_in k fail = false.
+Proof.
+  intros H. apply in_flat_map in H. destruct H as (fn & Hfn & Hin).
+  unfold saved_of in Hin. destruct (key_in (key fn) fail) eqn:E; [destruct Hin|].
+  destruct Hin as [Heq|[]]. inversion Heq; subst. split; auto. apply in_map; auto.
+Qed.
+
+Lemma save_lines_spec md fail c disk ls c' d' w : save_lines md fail c disk ls = (c', d', w) ->
   exists ks, c' = evicts ks c /\
     (forall l, In l ls -> is_modified l = true -> In (key (ln_file l)) ks) /\
     (forall k, ~ In k ks -> map_get k d' = map_get k disk) /\
@@ -426,8 +456,20 @@ Proof.
     eexists; split; [reflexivity|]. split; [|split].
     + intros l Hl Hm. apply in_map. apply nodup_fname_in. apply in_map_iff. exists l. split; auto. apply filter_In; auto.
     + intros k Hk. apply fold_map_set_other; auto.
-    + intros k x Hin. simpl in Hin. apply in_map_iff in Hin. destruct Hin as (fn & Heq & Hfn).
-      inversion Heq; subst. apply in_map; auto.
+    + intros k x Hin. simpl in Hin. apply saved_of_in in Hin. destruct Hin; auto.
+Qed.
+
+(* what a failing rewrite leaves behind: nothing reported, the disk as it was *)
+Lemma save_lines_failed md fail c disk ls c' d' w : save_lines md fail c disk ls = (c', d', w) ->
+  forall k, key_in k fail = true ->
+    map_get k d' = map_get k disk /\ ~ In k (map fst w).
+Proof.
+  unfold save_lines. destruct (negb (opt_autofix md)).
+  - intros H; inversion H; subst. intros k _. split; auto.
+  - rewrite save_autofix_fold. intros H; inversion H; subst; clear H. intros k Hk. split.
+    + apply fold_save_one_failed; auto.
+    + simpl. intros Hin. apply in_map_iff in Hin. destruct Hin as ([k' x] & Heq & Hin). simpl in Heq. subst k'.
+      apply saved_of_in in Hin. destruct Hin. congruence.
 Qed.
 
 Lemma in_remove_nat v w l : In w l -> w <> v -> In w (remove_nat v l).
@@ -435,13 +477,13 @@ Proof.
   intros H Hne. unfold remove_nat. apply filter_In. split; auto. destruct (Nat.eqb_spec w v); auto; congruence.
 Qed.
 
-Lemma Inv_save md s v s' ob : Inv s -> step convert is_mk md s (OSave v) = Ok (s', ob) -> Inv s'.
+Lemma Inv_save md s v fl s' ob : Inv s -> step convert is_mk md s (OSave v fl) = Ok (s', ob) -> Inv s'.
 Proof.
   intros I. simpl. unfold view_lines.
   destruct (nth_error (st_views s) v) as [[fn addrs]|] eqn:V; [|intros H; inversion H; subst; auto].
-  destruct (save_lines md (st_cache s) (st_disk s) (map (line_at (st_heap s)) addrs)) as [[c' d'] w] eqn:S.
+  destruct (save_lines md fl (st_cache s) (st_disk s) (map (line_at (st_heap s)) addrs)) as [[c' d'] w] eqn:S.
   intros H; inversion H; subst; clear H.
-  destruct (save_lines_spec _ _ _ _ _ _ _ S) as (ks & -> & HK & HD & _).
+  destruct (save_lines_spec _ _ _ _ _ _ _ _ S) as (ks & -> & HK & HD & _).
   destruct (evicts_spec ks _ (inv_wf _ I)) as (W' & HC & HS & HT & HN & _).
   assert (Hnokey : forall eid, In eid (c_table (evicts ks (st_cache s))) ->
              ~ In (e_key (entry_at (c_store (st_cache s)) eid)) ks).
@@ -479,7 +521,7 @@ Qed.
 
 Lemma Inv_step md s o s' ob : Inv s -> step convert is_mk md s o = Ok (s', ob) -> Inv s'.
 Proof.
-  intros I. destruct o as [fn opts|v i f|v|k x].
+  intros I. destruct o as [fn opts|v i f|v fl|k x].
   - simpl. destruct (load convert is_mk s fn opts) as [[s1 r]|w] eqn:L; simpl; [|discriminate].
     intros H; inversion H; subst. eapply Inv_load; eauto.
   - apply Inv_fix; auto.
@@ -517,7 +559,7 @@ Qed.
 Lemma step_cap md s o s' ob : Inv s -> step convert is_mk md s o = Ok (s', ob) ->
   c_cap (st_cache s') = c_cap (st_cache s).
 Proof.
-  intros I. destruct o as [fn opts|v i f|v|k x]; simpl.
+  intros I. destruct o as [fn opts|v i f|v fl|k x]; simpl.
   - destruct (load convert is_mk s fn opts) as [[s1 r]|w] eqn:L; simpl; [|discriminate].
     intros H; inversion H; subst. eapply load_cap; eauto.
   - destruct (nth_error (st_views s) v) as [[fn addrs]|]; [|intros H; inversion H; subst; auto].
@@ -525,9 +567,9 @@ Proof.
     destruct (fix_line md (line_at (st_heap s) a) f) as [[l' acted]|w]; simpl; [|discriminate].
     intros H; inversion H; subst; auto.
   - unfold view_lines. destruct (nth_error (st_views s) v) as [[fn addrs]|]; [|intros H; inversion H; subst; auto].
-    destruct (save_lines md (st_cache s) (st_disk s) (map (line_at (st_heap s)) addrs)) as [[c' d'] w] eqn:S.
+    destruct (save_lines md fl (st_cache s) (st_disk s) (map (line_at (st_heap s)) addrs)) as [[c' d'] w] eqn:S.
     intros H; inversion H; subst; clear H. simpl.
-    destruct (save_lines_spec _ _ _ _ _ _ _ S) as (ks & -> & _).
+    destruct (save_lines_spec _ _ _ _ _ _ _ _ S) as (ks & -> & _).
     apply (evicts_spec ks _ (inv_wf _ I)).
   - intros H; inversion H; subst; simpl. apply evict_cap.
 Qed.
